@@ -21,7 +21,9 @@ RULE_C07 = ('operation scripts over up to 4 registers holding req_sketch<int64_t
             'for every section size 4..~300; deterministic merges into compactors holding 0, 1, 2, section_size-1, section_size, section_size+1 items at level 0 '
             '(operand sorted / unsorted, values on both sides of the receiver\'s items, with ties) and 0, 2, 3, 4, 5 items above level 0 (a compactor above level 0 never '
             'holds exactly one item), and merges that land exactly on num_retained == max_nom_size. non-trivial = at least one compaction or one merge')
-RULE_C08 = ('exhaustive enumeration on the implementation of ALL outcomes of the internal FRESH coin flips for short histories (updates and merges over registers, '
+RULE_C08 = ('the published error: get_RSE on a grid of (k, rank, hra, n) and get_rank_lower/upper_bound on estimation-mode sketches of both modes queried at every item '
+            'within 7k of either end and at dyadic ranks just inside / outside the band is_exact_rank declares exact (bit-exact against the model; oracle: lb <= estimate <= ub, '
+            'bounds widen with the number of standard deviations, inside the declared-exact band the estimate is the true rank); exhaustive enumeration on the implementation of ALL outcomes of the internal FRESH coin flips for short histories (updates and merges over registers, '
             'both modes; k in {4,6}; m <= 8 coins quick, <= 13 thorough) through scripted coins: for every query point the sum over the 2^m outcomes of the rank '
             'numerators must equal 2^m * true rank, every outcome must draw exactly m coins (enumeration, not proof; the theorems are in Properties_C08_req). '
             'Histories include the reused (negated) coin of odd compactions and merges into a compactor that never compacted. non-trivial = every such case (m >= 1)')
@@ -31,7 +33,9 @@ TRUSTED = ['REQ model coq/ReqDefs.v (+ coq/SortedView.v) written by hand from re
            'binary32 arithmetic of section_size_raw_ (division by sqrtf(2), round()) modelled by exact integer arithmetic on (mantissa, exponent) pairs; compared on '
            'every run with the machine arithmetic (op 20) for all section sizes the scripts use',
            'fresh coin flips of random_utils::random_bit() are supplied by the harness through the DATASKETCHES_VERIF hook and replayed by the model (their generation is not modelled)',
-           'rank numerators are recovered in the harness as llround(rank * n) (IEEE division/multiplication only); quantile ranks in the scripts are dyadic (j / 2^t)']
+           'rank numerators are recovered in the harness as llround(rank * n) (IEEE division/multiplication only); quantile ranks in the scripts are dyadic (j / 2^t)',
+           'get_rank (as a double), get_rank_lower_bound / get_rank_upper_bound / get_RSE are modelled in Coq primitive binary64 floats (+ - * / sqrt, comparisons) and '
+           'compared BIT FOR BIT with the code (harness built with -ffp-contract=off); the exact-band theorem is about the integer compaction model, not about the float code']
 ASSUMPTIONS = ['n < 2^53, fewer than 2^47 compactions per level and at most 63 levels (uint8/uint32/uint64 overflow of the implementation is not modelled)',
                'items are totally ordered integers (double sketches receive integer values; NaN only through the dedicated ops); comparator assumed a strict weak order',
                'the clause "within the published error at least as often as claimed" of C08 is statistical and not claimed',
@@ -161,14 +165,33 @@ def stream(rng, n):
         return [base + (i % p) * 10 + i // p for i in range(n)]
     return [base + rng.randrange(-100, 1000) for _ in range(n)]
 
-def query_block(rng, r, kind, vals, thorough):
+def band_edges(k, n, t=30):
+    """dyadic ranks j / 2^t just inside and just outside the band is_exact_rank declares exact (3k/n from either end)"""
+    if n <= 0:
+        return [0, 1 << t]
+    e = (3 * k << t) // n
+    js = [e - 1, e, e + 1, e + 2, (1 << t) - e - 2, (1 << t) - e - 1, (1 << t) - e, (1 << t) - e + 1, 2 * e, (1 << t) - 2 * e]
+    return sorted(set(j for j in js if 0 <= j <= (1 << t)))
+
+def query_block(rng, r, kind, vals, thorough, k=None):
     """observe + rank grid + quantile grid + CDF/PMF + listing for register r"""
     ops = [[5, r], [10, r]]
     lo = min(vals) if vals else 0; hi = max(vals) if vals else 10
-    pts = sorted(set([lo - 1, lo, hi, hi + 1] + [rng.randrange(lo - 2, hi + 3) for _ in range(6 if not thorough else 12)] +
-                     [rng.choice(vals) for _ in range(3)] if vals else [0, 1]))
+    pts = set([lo - 1, lo, hi, hi + 1] + [rng.randrange(lo - 2, hi + 3) for _ in range(6 if not thorough else 12)] +
+              [rng.choice(vals) for _ in range(3)] if vals else [0, 1])
+    if k and vals:
+        # items around the edge of the never-compacted zone (3k from either end) and of the level-0 capacity (6k)
+        sv = sorted(vals)
+        for c in (3 * k, 6 * k, 4 * k):
+            for d in (-2, -1, 0, 1):
+                for idx in (c + d, len(sv) - 1 - (c + d)):
+                    if 0 <= idx < len(sv): pts.add(sv[idx])
+    pts = sorted(pts)
     for x in pts:
         ops.append([6, r, x])
+    if k:
+        for j in band_edges(k, len(vals)):
+            ops.append([22, r, j, 30, rng.choice([1, 2, 3, 0, 255])])
     t = rng.choice([1, 2, 3, 4, 6, 10])
     js = sorted(set([0, 1 << t, (1 << t) // 2] + [rng.randrange(0, (1 << t) + 1) for _ in range(5)]))
     for j in js:
@@ -188,6 +211,36 @@ def query_block(rng, r, kind, vals, thorough):
     ops.append([5, r])
     return ops
 
+def published_error_cases(rng, thorough):
+    cases = []
+    # the published error (C08, second sentence): static get_RSE on a grid of (k, rank, hra, n) with ranks just inside / outside the
+    # declared-exact band at both ends, compared bit for bit with the model
+    ops = []
+    for k in (4, 5, 12, 50, 200, 1000, 65535, 0, 1):
+        for n in (0, 1, 3 * k, 3 * k + 1, 6 * k, 6 * k + 1, 10 * k + 7, 1000 * k + 1, (1 << 40) + 12345):
+            for h in (0, 1):
+                for j in band_edges(k, n) + [0, 1 << 29, 1 << 30]:
+                    ops.append([21, k, j, 30, h, n])
+    ops += [[21, 70000, 0, 1, 0, 5], [21, 4, 3, 1, 0, 5], [21, 4, 1, 41, 0, 5]]      # refused by the harness
+    cases.append(dict(id='req_rse_grid', ops=ops, tags=['published-error-grid']))
+    # estimation-mode sketches of plain streams, both modes, queried at EVERY item around the edge of the never-compacted zone
+    # (ranks 3k - 3 .. 3k + 3 and up to 6k from the accurate end): inside the band the sketch declares exact, the estimate must be the true rank
+    bi = 0
+    for h in (0, 1):
+        for k in (4, 6, 12):
+            for n in (6 * k + 1, 13 * k, 40 * k + 3):
+                for order in ('sorted', 'reversed', 'random'):
+                    bi += 1; kind = bi % 3
+                    xs = list(range(n))
+                    if order == 'reversed': xs.reverse()
+                    elif order == 'random': rng.shuffle(xs)
+                    ops = [[99, 3000 + bi], [1, 0, kind, k, h]] + [[2, 0, x] for x in xs]
+                    near = sorted(set(list(range(0, min(n, 7 * k))) + list(range(max(0, n - 7 * k), n))))
+                    ops += [[6, 0, x] for x in near]
+                    ops += query_block(rng, 0, kind, xs, thorough, k)
+                    cases.append(dict(id='reqband%d' % bi, ops=ops, tags=['compaction', 'exact-band', 'hra' if h else 'lra']))
+    return cases
+
 def gen_c07(rng, tier):
     thorough = tier != 'quick'
     ncases = 90 if not thorough else 900
@@ -200,6 +253,7 @@ def gen_c07(rng, tier):
     # the float32 section-size schedule, every section size the constructor can produce and a few larger ones
     ks = list(range(4, 256, 2)) + [300, 1000, 4096, 65534]
     cases.append(dict(id='req_sched', ops=[[20, k] for k in ks], tags=['float32-schedule']))
+    cases += published_error_cases(rng, thorough)
     # merges into compactors of every small size (seed C07-2: req_compactor::merge must inplace_merge also when the receiving
     # compactor holds exactly ONE item).  Level 0: receiver with 0, 1, 2, section_size - 1, section_size, section_size + 1
     # items; operand sorted (level 0 sorted by a query) or unsorted, with values on BOTH sides of the receiver's items.
@@ -219,7 +273,7 @@ def gen_c07(rng, tier):
                     if na and di % 2:
                         ops.append([6, 0, 0])                                       # receiver flagged sorted as well
                     ops += [[4, 0, 1, di % 2]]
-                    ops += query_block(rng, 0, kind, av + bv, thorough)
+                    ops += query_block(rng, 0, kind, av + bv, thorough, k)
                     cases.append(dict(id='reqsmall%d' % di, ops=ops, tags=['merge', 'merge-small-receiver', 'recv=%d' % na]))
         for k in (4, 6, 8, 10):
             for shape in ('est<-est', 'tiny<-est', 'est<-tiny', 'empty<-est'):
@@ -234,7 +288,7 @@ def gen_c07(rng, tier):
                 else: av, bv = [], od
                 ops = [[99, 2000 + di], [1, 0, kind, k, h], [1, 1, kind, k, h]] + [[2, 0, x] for x in av] + [[2, 1, x] for x in bv]
                 ops += [[5, 0], [5, 1], [4, 0, 1, 0]]
-                ops += query_block(rng, 0, kind, av + bv, thorough)
+                ops += query_block(rng, 0, kind, av + bv, thorough, k)
                 cases.append(dict(id='reqtop%d' % di, ops=ops, tags=['merge', 'merge-small-receiver', 'compaction', shape]))
     # merges after which num_retained == max_nom_size EXACTLY (the boundary of "if (num_retained_ >= max_nom_size_) compress()");
     # a sketch left uncompressed there never compresses again, because update() tests equality
@@ -257,7 +311,7 @@ def gen_c07(rng, tier):
             continue
         xs = stream(rng, n1); ys = stream(rng, n2)
         ops = [[99, rng.randrange(1 << 30)], [1, 0, kind, k, h], [1, 1, kind, k, h]] + [[2, 0, x] for x in xs] + [[2, 1, y] for y in ys]
-        ops += [[4, 0, 1, 0], [5, 0]] + [[2, 0, y + 1] for y in ys[:cap]] + query_block(rng, 0, kind, xs + ys + [y + 1 for y in ys[:cap]], thorough)
+        ops += [[4, 0, 1, 0], [5, 0]] + [[2, 0, y + 1] for y in ys[:cap]] + query_block(rng, 0, kind, xs + ys + [y + 1 for y in ys[:cap]], thorough, eff_k(k))
         cases.append(dict(id='reqexact%d' % ci, ops=ops, tags=['merge', 'merge-exact-capacity']))
     for ci in range(ncases):
         ops = []; tags = set()
@@ -331,7 +385,7 @@ def gen_c07(rng, tier):
                     flips += sims[0].merge(sims[r2]); vals[0] += vals[r2]
                 ops.append([5, 0])
         for r in range(nreg):
-            ops += query_block(rng, r, kind, vals[r], thorough)
+            ops += query_block(rng, r, kind, vals[r], thorough, sims[r].k)
         comp = sum(s.stats.get('compactions', 0) for s in sims.values())
         if comp: tags.add('compaction')
         if merges: tags.add('merge')
@@ -366,6 +420,9 @@ def multiset_sub(a, b):
 def strictly_increasing(l):
     return all(l[i] < l[i + 1] for i in range(len(l) - 1))
 
+def R_k(g):
+    return eff_k(g['k'])
+
 def oracle_c07(case, irecs, mrecs):
     fails = []
     def fail(sig, what, i):
@@ -386,6 +443,12 @@ def oracle_c07(case, irecs, mrecs):
         oc = op[0]
         if oc in (20, 97, 98, 99):
             continue
+        if oc == 21:
+            if R != [-1] and len(R) == 1:
+                rank = op[2] / float(1 << op[3]); lb = dbl(R[0])
+                if not (lb <= rank):
+                    fail('req_bounds_exclude_estimate', 'get_RSE(%d, %r, %d, %d) = %r above the rank' % (op[1], rank, op[4], op[5], lb), i)
+            continue
         if oc == 1:
             if R == [1]:
                 regs[op[1]] = dict(log=[], merged=False, epoch=i, kind=op[2], k=op[3], hra=1 if op[4] else 0)
@@ -393,7 +456,7 @@ def oracle_c07(case, irecs, mrecs):
         r = op[1]
         if oc == 13:
             if R == [1] and op[2] in regs:
-                g2 = regs[op[2]]; regs[r] = dict(log=list(g2['log']), merged=g2['merged'], epoch=i, kind=g2['kind'], k=g2['k'], hra=g2['hra'])
+                g2 = regs[op[2]]; regs[r] = dict(log=list(g2['log']), merged=g2['merged'], epoch=i, kind=g2['kind'], k=g2['k'], hra=g2['hra'], mixedk=g2.get('mixedk'))
             continue
         if r not in regs:
             if R != [-1]:
@@ -414,6 +477,7 @@ def oracle_c07(case, irecs, mrecs):
                 g2 = regs[op[2]]
                 if g2['log']:
                     g['log'] += g2['log']; g['merged'] = True; g['epoch'] = i
+                    if eff_k(g2['k']) != eff_k(g['k']) or g2.get('mixedk'): g['mixedk'] = True
                 if op[3] == 1:
                     del regs[op[2]]
         elif oc == 5:
@@ -460,18 +524,18 @@ def oracle_c07(case, irecs, mrecs):
             if est == 1 and all(w == 1 for w in ws) and n > 0:
                 fail('req_estimation_flag', 'estimation mode but every retained item has weight 1', i)
             h = view(r); h['retained'] = set(items); h['n'] = n
-        elif oc in (6, 7, 8, 9, 10):
+        elif oc in (6, 7, 8, 9, 10, 22):
             log = g['log']
             if not log:
-                if R != [-1] and oc != 10:
+                if R != [-1] and oc not in (10, 22):
                     fail('req_empty_query_answered', 'query %d on an empty sketch was answered' % oc, i)
                 continue
             h = view(r); n = len(log)
             if oc == 6:
                 if R == [-1] or len(R) < 3:
                     fail('req_rank_refused', 'rank query refused', i); continue
-                ni, ne, est = R; x = op[2]
-                ri, re = (dbl(F[0]), dbl(F[1])) if len(F) >= 2 else (0.0, 0.0)
+                ni, ne, est = R[:3]; x = op[2]
+                ri, re = (dbl(R[3]), dbl(R[4])) if len(R) >= 5 else (0.0, 0.0)
                 if not (0 <= ne <= ni <= n) or not (0.0 <= re <= ri <= 1.0):
                     fail('req_rank_incl_lt_excl', 'rank(%d): inclusive %d < exclusive %d or outside [0, n]' % (x, ni, ne), i)
                 if est == 0 and S and (ni != S[0] or ne != S[1]):
@@ -486,14 +550,26 @@ def oracle_c07(case, irecs, mrecs):
                     if x2 < x and ni2 > ne:
                         fail('req_rank_incoherent', 'inclusive rank(%d) = %d above exclusive rank(%d) = %d' % (x2, ni2, x, ne), i)
                 h['ranks'].append((x, ni, ne))
-                if len(F) >= 8:
-                    bs = [dbl(v) for v in F[2:8]]
+                if len(R) >= 11:
+                    bs = [dbl(v) for v in R[5:11]]
                     for sd in range(3):
                         lb, ub = bs[2 * sd], bs[2 * sd + 1]
-                        if not (lb <= ri + 1e-12 and ri <= ub + 1e-12):
+                        if not (lb <= ri <= ub):
                             fail('req_bounds_exclude_estimate', 'get_rank_lower/upper_bound(%r, %d) = %r / %r do not enclose the rank' % (ri, sd + 1, lb, ub), i)
                         if est == 0 and (lb != ri or ub != ri):
                             fail('req_bounds_exact_mode', 'exact sketch but the published rank bounds differ from the rank', i)
+                        if sd and (lb > bs[2 * sd - 2] or ub < bs[2 * sd - 1]):
+                            fail('req_bounds_not_widening', 'the published bounds for %d standard deviations are inside those for %d' % (sd + 1, sd), i)
+                    # the band the sketch itself declares exact (lower bound == estimate == upper bound): there the estimate
+                    # must be the true rank of the input stream (the protected half of level 0 is never compacted)
+                    if est == 1 and bs[0] == ri == bs[1]:
+                        true_incl = sum(1 for v in log if v <= x)
+                        if ni != true_incl:
+                            sig = 'req_exact_band_wrong'
+                            if g.get('mixedk'): sig = 'req_exact_band_wrong_after_unequal_k_merge'
+                            elif ni == 3 * R_k(g) or n - ni == 3 * R_k(g): sig = 'req_exact_band_wrong_at_its_edge'
+                            fail(sig, 'rank(%d) = %d/%d is declared exact (lower bound = estimate = upper bound = %r) but the true rank is %d/%d '
+                                      '(k = %d, %s, n = %d)' % (x, ni, n, ri, true_incl, n, R_k(g), 'HRA' if g['hra'] else 'LRA', n), i)
             elif oc == 7:
                 j, t = op[2], op[3]
                 if j < 0 or j > (1 << t):
@@ -545,6 +621,11 @@ def oracle_c07(case, irecs, mrecs):
                             fail('req_cdf_vs_rank', 'CDF(%d) = %d/%d but get_rank = %d/%d' % (x, ci[q], ce[q], ni2, ne2), i)
                     if ci[q] < ce[q]:
                         fail('req_rank_incl_lt_excl', 'CDF inclusive below exclusive at %d' % x, i)
+            elif oc == 22:
+                if R != [-1] and len(R) == 2:
+                    rank = op[2] / float(1 << op[3]); lb, ub = dbl(R[0]), dbl(R[1])
+                    if not (lb <= rank <= ub):
+                        fail('req_bounds_exclude_estimate', 'get_rank_lower/upper_bound(%r, %d) = %r / %r do not enclose the rank' % (rank, op[4], lb, ub), i)
             elif oc == 9:
                 if g['kind'] == 1 and R != [-1]:
                     fail('req_nan_split_answered', 'CDF with a NaN split point was answered', i)
@@ -611,7 +692,7 @@ def history(rng, max_m, want_unset):
 
 def gen_c08(rng, tier):
     thorough = tier != 'quick'
-    cases = []
+    cases = published_error_cases(rng, thorough)      # C08, second sentence: the error bounds the sketch publishes
     budget = 90000 if not thorough else 4000000       # total operations
     idx = 0
     while budget > 0 and idx < (14 if not thorough else 60):
@@ -642,6 +723,8 @@ def gen_c08(rng, tier):
     return cases
 
 def oracle_c08(case, irecs, mrecs):
+    if case['id'].startswith('reqband') or case['id'].startswith('req_rse'):
+        return oracle_c07(case, irecs, mrecs)       # published bounds: lb <= estimate <= ub, widening, declared-exact band
     fails = []
     ops = case['ops']
     starts = [i for i, op in enumerate(ops) if op[0] == 99]
@@ -700,8 +783,9 @@ def oracle_c08(case, irecs, mrecs):
                                    (m, x, si, se, (1 << m) * ti, (1 << m) * te), op_index=blocks[0][0] + key))
     return fails
 
-FAMILIES_C07 = [dict(name='req', harness='drv_req.cpp', extract='Extract_req.v', model='model_req', gen=gen_c07, oracle=oracle_c07)]
-FAMILIES_C08 = [dict(name='req', harness='drv_req.cpp', extract='Extract_req.v', model='model_req', gen=gen_c08, oracle=oracle_c08)]
+FLT = dict(ocaml_flags='-rectypes -thread -package coq-core.kernel -linkpkg', cxx_flags='-ffp-contract=off')
+FAMILIES_C07 = [dict(name='req', harness='drv_req.cpp', extract='Extract_req.v', model='model_req', gen=gen_c07, oracle=oracle_c07, **FLT)]
+FAMILIES_C08 = [dict(name='req', harness='drv_req.cpp', extract='Extract_req.v', model='model_req', gen=gen_c08, oracle=oracle_c08, **FLT)]
 
 # what is PROVED / compared / not claimed for this family (for the property-level MANIFEST texts in C07.py / C08.py)
 MANIFEST_C07 = dict(
@@ -750,6 +834,8 @@ MANIFEST_C08 = dict(
 #   M17 the constructor coin fix reverted (coin_(false))                                                  [C08: req_rank_biased]
 #   M18 req_sketch::merge: compress only when num_retained_ > max_nom_size_ (first survived; caught since the generator
 #       builds merges that land exactly on num_retained == max_nom_size: cases reqexact*)
+#   S2  independent seed C08-5: is_exact_rank with base_cap = 6k instead of 3k (first MISSED: bounds were only sanity-checked; CAUGHT since the
+#       bounds are modelled bit-exactly and the declared-exact band is checked against the true rank, sig req_exact_band_wrong / R mismatch)
 #   S1  independent seed C07-2: req_compactor::merge guards the final std::inplace_merge with num_items_ > 1 instead of > 0
 #       (first MISSED: no case merged into a compactor holding exactly one item; CAUGHT since the reqsmall*/reqtop* cases,
 #       sig req_exact_quantile / req_exact_rank / view mismatch)
